@@ -91,6 +91,7 @@ type World struct {
 	idleTicks int
 	idleRun   int
 	mainEndStep int
+	internal    string
 }
 
 // RuleStat counts how often an oracle rule was applicable and held.
